@@ -225,7 +225,50 @@ func stdUnits(c *Ctx, thorough bool, cap, chunk int, body func(u *U, fn *stdFn, 
 	}
 }
 
+// c11ManyArgs: variadic functions with 7, 8 and 9 variadic arguments, all alike: a known value,
+// a typed unknown, DynamicVal, a null, and unknown collections with large length bounds.
+func c11ManyArgs(c *Ctx) {
+	for _, fn := range stdFns {
+		fn := fn
+		if fn.F.VarParam() == nil {
+			continue
+		}
+		c.Unit(func(u *U) {
+			np := len(fn.F.Params())
+			vd := fn.dict(np, c.Thorough)
+			for di := 0; di < len(vd) && di < 5; di++ {
+				x := vd[di]
+				forms := []cty.Value{x, cty.UnknownVal(x.Type()), cty.UnknownVal(x.Type()).RefineNotNull(), cty.DynamicVal, cty.NullVal(x.Type()), x.Mark(markM1)}
+				if ty := x.Type(); ty.IsCollectionType() {
+					for _, b := range []int{256, 1024} {
+						b := b
+						if v, ok := safeRefine(func() cty.Value {
+							return cty.UnknownVal(ty).Refine().NotNull().CollectionLengthUpperBound(b).NewValue()
+						}); ok {
+							forms = append(forms, v)
+						}
+					}
+				}
+				for _, n := range []int{7, 8, 9} {
+					for _, f := range forms {
+						args := make([]cty.Value, 0, np+n)
+						for i := 0; i < np; i++ {
+							args = append(args, fn.dict(i, c.Thorough)[0])
+						}
+						for k := 0; k < n; k++ {
+							args = append(args, f)
+						}
+						u.DistinctN(1)
+						c11Check(u, fn, args)
+					}
+				}
+			}
+		})
+	}
+}
+
 func runC11(c *Ctx) {
+	defer c11ManyArgs(c)
 	// table vs source cross-check (reported, never a violation)
 	src := stdlibSourceFuncs()
 	c.Note("functions_in_table", fmt.Sprint(len(stdFns)))
